@@ -10,13 +10,17 @@ is proved from the definition, `ClRange.sha256_length`), and therefore
 `ln ≥ 321`) that is `|floor(s / c) − x| ≥ 2^64` for every response (`*_hidden`).
 The secret `x` may have either sign (`mask_floor` holds for all `x`).
 
-`ratio_note`: the quotient of two responses with blindings of equal length is at most 2.
+`ratio_note`: the quotient of two responses with blindings of equal length is at most 2;
+`ratio_perturbation(_resp)`: over ℚ, `s/s'` is `r/r'` up to the relative error `2^m/2^(n-1)`.
 `zkpok_masks`, `pok_masks`: the same for every sigma protocol inside the two composite proofs
 (`ZKPoK::generate_proof`, `PoKSignature::proof_gen`), including the per-attribute loops.
 Not covered (not a for-every-tape fact): the responses inside the Boudot range proofs, whose
 blindings are uniform `rand_int` draws from an interval starting at 0 or 1, not `random_bits`.
 -/
 import ZkProofs.Lemmas.ClRange
+import Mathlib.Tactic.FieldSimp
+import Mathlib.Algebra.Order.Field.Basic
+import Mathlib.Data.Rat.Cast.Order
 set_option linter.unusedVariables false
 namespace Zk.C19
 open Zk.IA Zk.Cl Zk.ClRange
@@ -296,6 +300,52 @@ theorem ratio_note {s s' r r' c x x' : Int} {n : Nat} (hn : 0 < n) (hs : s = r +
   refine ⟨h0, by omega, fun hx => ?_⟩
   rw [abs_of_nonpos (by omega)]
   omega
+
+/-- **Quotient of two responses, exactly.** Over ℚ: if the secret parts `d = c·x`, `d' = c·x'` are
+at most a fraction `δ` of the blindings, `s/s'` equals `r/r'` up to the relative error `δ`: the
+quotient of two responses is a function of the two blindings up to `δ`. -/
+theorem ratio_perturbation {r r' d d' δ : ℚ} (hr : 0 < r) (hr' : 0 < r') (hd : 0 ≤ d) (hd' : 0 ≤ d')
+    (hδ : 0 ≤ δ) (h1 : d ≤ δ * r) (h2 : d' ≤ δ * r') :
+    |(r + d) / (r' + d') - r / r'| ≤ δ * (r / r') := by
+  have hp : 0 < r' + d' := by linarith
+  have e : (r + d) / (r' + d') - r / r' = (d * r' - r * d') / ((r' + d') * r') := by
+    field_simp; ring
+  have e2 : δ * (r / r') = (δ * r * (r' + d')) / ((r' + d') * r') := by
+    field_simp
+  have hden : 0 < (r' + d') * r' := mul_pos hp hr'
+  have k1 := mul_le_mul_of_nonneg_left h2 hr.le
+  have k2 := mul_le_mul_of_nonneg_right h1 hr'.le
+  have k3 : 0 ≤ δ * r * d' := mul_nonneg (mul_nonneg hδ hr.le) hd'
+  have k4 : 0 ≤ d * r' := mul_nonneg hd hr'.le
+  have k5 : 0 ≤ r * d' := mul_nonneg hr.le hd'
+  rw [e, e2, abs_le, ← neg_div]
+  constructor
+  · rw [div_le_div_iff_of_pos_right hden]; nlinarith
+  · rw [div_le_div_iff_of_pos_right hden]; nlinarith
+
+/-- For two CL03 responses whose blindings have at least `n` bits and whose secret×challenge
+products are below `2^m`: `δ = 2^m / 2^(n-1)` (with `blindLen`: `m = k + 256`, `n = k + 384`,
+`δ = 2^-127`). -/
+theorem ratio_perturbation_resp {s s' r r' c x x' : Int} {n m : Nat} (hs : s = r + c * x)
+    (hs' : s' = r' + c * x') (hr : 2 ^ (n - 1) ≤ r) (hr' : 2 ^ (n - 1) ≤ r')
+    (h1 : 0 ≤ c * x) (h2 : c * x < 2 ^ m) (h3 : 0 ≤ c * x') (h4 : c * x' < 2 ^ m) :
+    |(s : ℚ) / s' - (r : ℚ) / r'| ≤ (2 ^ m / 2 ^ (n - 1)) * ((r : ℚ) / r') := by
+  have hp : (0 : ℚ) < 2 ^ (n - 1) := by positivity
+  have hrq : (2 : ℚ) ^ (n - 1) ≤ r := by exact_mod_cast hr
+  have hrq' : (2 : ℚ) ^ (n - 1) ≤ r' := by exact_mod_cast hr'
+  have hd : ((c * x : Int) : ℚ) ≤ 2 ^ m := by exact_mod_cast h2.le
+  have hd' : ((c * x' : Int) : ℚ) ≤ 2 ^ m := by exact_mod_cast h4.le
+  have hδ : (0 : ℚ) ≤ 2 ^ m / 2 ^ (n - 1) := by positivity
+  have key : ∀ y : ℚ, 2 ^ (n - 1) ≤ y → (2 : ℚ) ^ m ≤ 2 ^ m / 2 ^ (n - 1) * y := by
+    intro y hy
+    rw [div_mul_eq_mul_div, le_div_iff₀ hp]
+    exact mul_le_mul_of_nonneg_left hy (by positivity)
+  have := ratio_perturbation (r := r) (r' := r') (d := ((c * x : Int) : ℚ))
+    (d' := ((c * x' : Int) : ℚ)) (δ := 2 ^ m / 2 ^ (n - 1)) (by linarith) (by linarith)
+    (by exact_mod_cast h1) (by exact_mod_cast h3) hδ (hd.trans (key _ hrq)) (hd'.trans (key _ hrq'))
+  rw [hs, hs']
+  push_cast at this ⊢
+  exact this
 
 /-! ### 10. the two composite proofs (`ZKPoK`, `PoKSignature`) -/
 
